@@ -24,14 +24,28 @@ from sa import pyfacts as pf
 P, Z, U = "P", "Z", "U"
 
 
-class AV:
-    __slots__ = ("sign", "dep", "cl")
+NOTAINT = frozenset()
+UNKNOWN_ROOT = "?"
 
-    def __init__(self, sign=U, dep=False, cl=False):
-        self.sign, self.dep, self.cl = sign, dep, cl
+
+class AV:
+    """zr: for a value of sign Z, the set of *root* expressions r (texts such as 'X0T[1]')
+    with  value == 0  <=>  some r == 0  (names, sqrt, products, positive powers of roots);
+    None when the zero set is not of that form.
+    taint: roots on whose zero set the value may be non-finite (a division / negative power /
+    log whose operand vanishes there); UNKNOWN_ROOT when the zero set of the operand is unknown."""
+    __slots__ = ("sign", "dep", "cl", "zr", "taint")
+
+    def __init__(self, sign=U, dep=False, cl=False, zr=None, taint=NOTAINT):
+        self.sign, self.dep, self.cl, self.zr, self.taint = sign, dep, cl, zr, taint
 
     def key(self):
-        return (self.sign, self.dep, self.cl)
+        return (self.sign, self.dep, self.cl, self.zr, self.taint)
+
+    def but(self, **kw):
+        d = {"sign": self.sign, "dep": self.dep, "cl": self.cl, "zr": self.zr, "taint": self.taint}
+        d.update(kw)
+        return AV(**d)
 
     def __repr__(self):
         return "%s%s%s" % ({"P": ">0", "Z": ">=0", "U": "?"}[self.sign], "ρ" if self.dep else "", "c" if self.cl else "")
@@ -39,13 +53,15 @@ class AV:
 
 class Mask:
     """value of `name < cutoff`"""
-    __slots__ = ("name", "right_src", "right", "dep")
+    __slots__ = ("name", "right_src", "right", "dep", "covers")
 
-    def __init__(self, name, right_src, right, dep):
+    def __init__(self, name, right_src, right, dep, covers=None):
         self.name, self.right_src, self.right, self.dep = name, right_src, right, dep
+        # roots r such that the mask is True wherever r == 0 (left >= 0 compared with a positive bound)
+        self.covers = covers
 
     def key(self):
-        return ("mask", self.name, self.right_src)
+        return ("mask", self.name, self.right_src, self.covers)
 
 
 def key_of(v):
@@ -81,7 +97,8 @@ def join(a, b):
     if isinstance(a, Mask) and isinstance(b, Mask) and a.key() == b.key():
         return a
     a, b = flat(a), flat(b)
-    return AV(join_sign(a.sign, b.sign), a.dep or b.dep, a.cl or b.cl)
+    return AV(join_sign(a.sign, b.sign), a.dep or b.dep, a.cl or b.cl,
+              a.zr if a.zr == b.zr and a.sign == b.sign else None, a.taint | b.taint)
 
 
 def sign_of_number(x):
@@ -165,6 +182,8 @@ class Interp:
         self.memo = {}
         self.stack = []
         self.unknown_calls = {}
+        self.sinks = {}      # id(node) -> dict(func, node, what, taint) outputs: returns / stores into parameters
+        self.cleansed = {}   # id(func) -> {root: override statement} roots some masked override removed
 
     # -- constant folding -------------------------------------------------
     def fold(self, e, fn):
@@ -209,6 +228,16 @@ class Interp:
         s.contexts += 1
         s.guarded_where = s.guarded_where or guarded
 
+    def sink(self, fn, node, what, val):
+        t = frozenset()
+        for x in (val if isinstance(val, tuple) else (val,)):
+            t |= flat(x).taint
+        d = self.sinks.get(id(node))
+        if d is None:
+            self.sinks[id(node)] = {"func": fn, "node": node, "what": what, "taint": t}
+        else:
+            d["taint"] = d["taint"] | t
+
 
 class Frame:
     def __init__(self, interp, fn, env):
@@ -217,6 +246,9 @@ class Frame:
         self.env = env
         self.ret = None
         self.dead = False
+        a = fn.args
+        self._params = {x.arg for x in a.posonlyargs + a.args + a.kwonlyargs}
+        self._rebound = set()
 
     # -- statements ---------------------------------------------------------
     def block(self, stmts):
@@ -228,6 +260,7 @@ class Frame:
     def _fork(self):
         f = Frame(self.I, self.fn, dict(self.env))
         f.ret = self.ret
+        f._rebound = self._rebound  # shared: a rebinding on any path makes the name a local
         return f
 
     def _merge(self, a, b):
@@ -254,6 +287,8 @@ class Frame:
     def stmt(self, st):
         if isinstance(st, ast.Return):
             v = self.expr(st.value) if st.value is not None else AV(U)
+            if st.value is not None:
+                self.I.sink(self.fn, st, "returned value `%s`" % pf.src(st.value)[:60], v)
             self.ret = v if self.ret is None else join(self.ret, v)
             self.dead = True
         elif isinstance(st, ast.Raise):
@@ -261,6 +296,7 @@ class Frame:
         elif isinstance(st, ast.Assign):
             v = self.expr(st.value)
             for t in st.targets:
+                self._param_sink(st, t, v)
                 self.assign(t, v, st.value)
         elif isinstance(st, ast.AnnAssign):
             if st.value is not None:
@@ -269,6 +305,7 @@ class Frame:
             cur = self.expr(_load(st.target))
             rhs = self.expr(st.value)
             v = self.binop(st.op, cur, rhs, st.target, st.value, st)
+            self._param_sink(st, st.target, rhs if isinstance(st.op, (ast.Add, ast.Sub)) else v)
             if isinstance(st.target, ast.Name):
                 self.env[st.target.id] = v
                 self._drop_masks(st.target.id)
@@ -331,10 +368,17 @@ class Frame:
             self.expr(st.test)
         # pass/import/def/global/...: nothing
 
+    def _param_sink(self, st, t, v):
+        """a store through a parameter (output argument): e[:] += ..., dedx[k] += ..., out[m] = ..."""
+        if isinstance(t, ast.Subscript):
+            root = pf.base_name(t)
+            if root in self._params and root not in self._rebound:
+                self.I.sink(self.fn, st, "store into the output parameter `%s`" % pf.src(t)[:40], v)
+
     def _drop_masks(self, name):
         for k, v in list(self.env.items()):
             if isinstance(v, Mask) and v.name == name:
-                self.env[k] = AV(U, v.dep, False)
+                self.env[k] = Mask(None, v.right_src, v.right, v.dep, v.covers)
 
     def assign(self, t, v, value_node):
         if isinstance(t, ast.Name):
@@ -350,6 +394,8 @@ class Frame:
                         keep = True
             if not keep:
                 self._drop_masks(t.id)
+            if t.id in self._params:
+                self._rebound.add(t.id)
             self.env[t.id] = v
         elif isinstance(t, (ast.Tuple, ast.List)):
             if isinstance(v, tuple) and len(v) == len(t.elts):
@@ -364,46 +410,67 @@ class Frame:
             self.assign(t.value, v, None)
         # attribute stores: not tracked
 
+    def _mask_of_index(self, idx):
+        elts = idx.elts if isinstance(idx, ast.Tuple) else [idx]
+        for x in elts:
+            if isinstance(x, ast.Name) and isinstance(self.env.get(x.id), Mask):
+                return self.env[x.id]
+            if isinstance(x, (ast.Compare, ast.Subscript)) and not isinstance(x, ast.Slice):
+                mv = self.expr(x)
+                if isinstance(mv, Mask):
+                    return mv
+        return None
+
+    def _cleanse(self, old, nv, m, t):
+        """taint of a value after `old[m] = nv`"""
+        if m is not None and m.covers:
+            removed = old.taint & m.covers
+            if removed:
+                d = self.I.cleansed.setdefault(id(self.fn), {})
+                for r in removed:
+                    d.setdefault(r, t)
+            return (old.taint - m.covers) | nv.taint
+        return old.taint | nv.taint
+
     def store_sub(self, t, v, value_node, whole):
         root = pf.base_name(t)
+        m = None
+        cur = t
+        while isinstance(cur, ast.Subscript) and m is None:
+            m = self._mask_of_index(cur.slice)
+            cur = cur.value
         if root is None or not isinstance(t.value, ast.Name):
             # nested store like res[0][cond] = 0: weak update of the root
             if root is not None and root in self.env:
-                self.env[root] = self._weak(self.env[root], v, t)
+                self.env[root] = self._weak(self.env[root], v, t, m)
             return
         old = self.env.get(root, AV(U))
         # masked store of a positive cutoff:  X[X < c] = c  or  m = X < c ; X[m] = c
-        m = None
-        idx = t.slice
-        if isinstance(idx, ast.Name) and isinstance(self.env.get(idx.id), Mask):
-            m = self.env[idx.id]
-        elif isinstance(idx, ast.Compare):
-            mv = self.expr(idx)
-            m = mv if isinstance(mv, Mask) else None
         if m is not None and m.name == root and value_node is not None \
                 and pf.src(value_node) == m.right_src and flat(v).sign == P:
             o = flat(old)
-            self.env[root] = AV(P, o.dep, True)
+            self.env[root] = AV(P, o.dep, True, None, self._cleanse(o, flat(v), m, t))
             return
         if whole:
-            o = flat(old)
             nv = flat(v)
-            self.env[root] = AV(nv.sign, nv.dep, nv.cl)
+            self.env[root] = AV(nv.sign, nv.dep, nv.cl, nv.zr, nv.taint)
             return
-        self.env[root] = self._weak(old, v, t)
+        self.env[root] = self._weak(old, v, t, m)
 
-    def _weak(self, old, v, t):
+    def _weak(self, old, v, t, m=None):
         if isinstance(old, tuple):
             # res[k][mask] = 0 on a tuple value: update element k if constant
             if isinstance(t.value, ast.Subscript) and isinstance(t.value.slice, ast.Constant) \
                     and isinstance(t.value.slice.value, int) and -len(old) <= t.value.slice.value < len(old):
                 k = t.value.slice.value
                 lst = list(old)
-                lst[k] = join(lst[k], v)
+                lst[k] = self._weak(lst[k], v, t, m) if not isinstance(lst[k], tuple) else join(lst[k], v)
                 return tuple(lst)
             return tuple(join(x, v) for x in old)
         o, nv = flat(old), flat(v)
-        return AV(join_sign(o.sign, nv.sign), o.dep or nv.dep, o.cl)
+        sign = join_sign(o.sign, nv.sign)
+        return AV(sign, o.dep or nv.dep, o.cl, o.zr if (o.zr == nv.zr and sign == o.sign) else None,
+                  self._cleanse(o, nv, m, t))
 
     # -- expressions --------------------------------------------------------
     def expr(self, e):
@@ -450,12 +517,15 @@ class Frame:
                 return flat(v)
             if isinstance(v, Mask):
                 return v
+            if v.sign == Z and v.zr == frozenset((pf.src(e.value),)) and self._mask_of_index(e.slice) is None:
+                # a row/element of a raw non-negative input is its own root: X0T[1], x[self.j]
+                return v.but(zr=frozenset((pf.src(e),)))
             return v
         if isinstance(e, ast.UnaryOp):
             v = flat(self.expr(e.operand))
             if isinstance(e.op, ast.UAdd):
                 return v
-            return AV(U, v.dep, v.cl)
+            return AV(U, v.dep, v.cl, None, v.taint)
         if isinstance(e, ast.BinOp):
             a, b = self.expr(e.left), self.expr(e.right)
             return self.binop(e.op, a, b, e.left, e.right, e)
@@ -463,8 +533,12 @@ class Frame:
             l = self.expr(e.left)
             rs = [self.expr(x) for x in e.comparators]
             dep = flat(l).dep or any(flat(r).dep for r in rs)
-            if len(e.ops) == 1 and isinstance(e.ops[0], (ast.Lt, ast.LtE)) and isinstance(e.left, ast.Name):
-                return Mask(e.left.id, pf.src(e.comparators[0]), flat(rs[0]), dep)
+            if len(e.ops) == 1 and isinstance(e.ops[0], (ast.Lt, ast.LtE)):
+                lf, rf = flat(l), flat(rs[0])
+                covers = lf.zr if (lf.sign == Z and lf.zr and rf.sign == P and not rf.taint) else None
+                if isinstance(e.left, ast.Name) or covers:
+                    return Mask(e.left.id if isinstance(e.left, ast.Name) else None,
+                                pf.src(e.comparators[0]), rf, dep, covers)
             return AV(U, dep, False)
         if isinstance(e, ast.BoolOp):
             vs = [flat(self.expr(x)) for x in e.values]
@@ -506,8 +580,38 @@ class Frame:
                     raise
                 break
 
+    @staticmethod
+    def _roots(x):
+        return x.zr if (x.sign == Z and x.zr) else frozenset((UNKNOWN_ROOT,))
+
     def binop(self, op, a, b, ln, rn, node):
         a, b = flat(a), flat(b)
+        r = self._binop0(op, a, b, ln, rn, node)
+        taint = a.taint | b.taint
+        zr = None
+        if isinstance(op, (ast.Div, ast.FloorDiv)):
+            if b.sign != P and b.dep:
+                taint = taint | self._roots(b)
+            zr = a.zr
+        elif isinstance(op, ast.Pow):
+            ev = self.I.fold(rn, self.fn)
+            maybe_neg = (ev is not None and ev < 0) or (ev is None and b.sign not in (P, Z))
+            if maybe_neg and a.sign != P and a.dep:
+                taint = taint | self._roots(a)
+            if ev is not None and ev > 0:
+                zr = a.zr
+        elif isinstance(op, ast.Mult):
+            if pf.src(ln) == pf.src(rn):
+                zr = a.zr
+            elif a.sign == P:
+                zr = b.zr
+            elif b.sign == P:
+                zr = a.zr
+            elif a.zr is not None and b.zr is not None:
+                zr = a.zr | b.zr
+        return r.but(zr=zr if r.sign == Z else None, taint=taint)
+
+    def _binop0(self, op, a, b, ln, rn, node):
         dep = a.dep or b.dep
         cl = a.cl or b.cl
         if isinstance(op, ast.Add):
@@ -572,6 +676,78 @@ class Frame:
         kws = {k.arg: self.expr(k.value) for k in e.keywords if k.arg}
         fargs = [flat(a) for a in args]
         dep = any(a.dep for a in fargs) or any(flat(v).dep for v in kws.values())
+        taint = frozenset()
+        for a in fargs:
+            taint |= a.taint
+        for v in kws.values():
+            taint |= flat(v).taint
+        # value-selecting guard: np.where(mask, safe, singular) is finite where the mask holds
+        if cn == "np.where" and len(args) == 3:
+            a, b = fargs[1], fargs[2]
+            m = args[0] if isinstance(args[0], Mask) else None
+            tb = (b.taint - m.covers) if (m is not None and m.covers) else b.taint
+            if m is not None and m.covers and (b.taint & m.covers):
+                d = self.I.cleansed.setdefault(id(self.fn), {})
+                for r_ in b.taint & m.covers:
+                    d.setdefault(r_, e)
+            j = join(a, b)
+            return j.but(dep=dep, taint=a.taint | tb)
+        if cn in ("np.log", "np.log10", "np.log2", "np.log1p") and args:
+            x = fargs[0]
+            arg = e.args[0]
+            if cn == "np.log1p":
+                shifted = x
+            else:
+                shifted = None
+                if isinstance(arg, ast.BinOp) and isinstance(arg.op, ast.Add):
+                    for c_, o_ in ((arg.left, arg.right), (arg.right, arg.left)):
+                        cv = self.I.fold(c_, self.fn)
+                        if cv is not None and cv >= 1:
+                            shifted = flat(self.expr(o_))
+            if shifted is not None and shifted.sign in (P, Z):
+                # log(1 + y), y >= 0: >= 0 and zero exactly where y is
+                return AV(shifted.sign, dep, shifted.cl, shifted.zr if shifted.sign == Z else None, taint)
+            if x.sign == P:
+                return AV(U, dep, x.cl, None, taint)
+            return AV(U, dep, x.cl, None, (taint | self._roots(x)) if x.dep else taint)
+        r = self._call0(e, cn, args, kws, fargs, dep)
+        if r is not None:
+            if isinstance(r, (tuple, Mask)):
+                return r
+            zr = None
+            if cn in ("np.sqrt", "np.cbrt", "np.abs", "np.fabs", "np.absolute", "abs", "np.square") and fargs:
+                zr = fargs[0].zr
+            elif r is (fargs[0] if fargs else None):
+                return r  # preserving call: same value
+            if cn in ("np.divide", "np.true_divide") and len(fargs) >= 2 and fargs[1].sign != P and fargs[1].dep and "where" not in kws:
+                taint = taint | self._roots(fargs[1])
+            if cn == "np.power" and len(fargs) >= 2 and "where" not in kws:
+                ev = self.I.fold(e.args[1], self.fn)
+                if ((ev is not None and ev < 0) or (ev is None and fargs[1].sign not in (P, Z))) and fargs[0].sign != P and fargs[0].dep:
+                    taint = taint | self._roots(fargs[0])
+            if isinstance(e.func, ast.Attribute) and e.func.attr in PRESERVE_METHODS and cn not in PRESERVE_CALLS:
+                return r  # method on a value: the receiver's own abstract value
+            return r.but(zr=zr if r.sign == Z else None, taint=taint | r.taint)
+        # repository callee?
+        targets = self.I.resolver(e, self.fn, self.I)
+        if targets:
+            out = None
+            for callee, bound in targets:
+                bargs = {}
+                for pname, node in bound.items():
+                    bargs[pname] = self.expr(node) if isinstance(node, ast.AST) else node
+                r = self.I.call_function(callee, bargs)
+                out = r if out is None else join(out, r)
+            return out
+        if isinstance(e.func, ast.Attribute):
+            recv = flat(self.expr(e.func.value))
+            dep = dep or (recv.dep and not pf.is_self_attr(e.func.value) and pf.src(e.func.value) != "self")
+            taint = taint | recv.taint
+        self.I.unknown_calls[cn or pf.src(e.func)] = self.I.unknown_calls.get(cn or pf.src(e.func), 0) + 1
+        return AV(U, dep, False, None, taint)
+
+    def _call0(self, e, cn, args, kws, fargs, dep):
+        """numpy vocabulary; None when the callee is not part of it"""
         if cn in ("np.maximum", "np.fmax") and len(args) == 2:
             a, b = fargs
             cl = a.cl or b.cl
@@ -616,22 +792,7 @@ class Frame:
             if isinstance(recv, (tuple, Mask)):
                 return flat(recv)
             return recv
-        # repository callee?
-        targets = self.I.resolver(e, self.fn, self.I)
-        if targets:
-            out = None
-            for callee, bound in targets:
-                bargs = {}
-                for pname, node in bound.items():
-                    bargs[pname] = self.expr(node) if isinstance(node, ast.AST) else node
-                r = self.I.call_function(callee, bargs)
-                out = r if out is None else join(out, r)
-            return out
-        if isinstance(e.func, ast.Attribute):
-            recv = flat(self.expr(e.func.value))
-            dep = dep or (recv.dep and not pf.is_self_attr(e.func.value) and pf.src(e.func.value) != "self")
-        self.I.unknown_calls[cn or pf.src(e.func)] = self.I.unknown_calls.get(cn or pf.src(e.func), 0) + 1
-        return AV(U, dep, False)
+        return None
 
 
 def _load(t):
